@@ -99,6 +99,22 @@ class ExprMixin:
                 and all(isinstance(e, ast.Constant) for e in lit.elts):
             # (only membership / iteration are meaningful for the frozenset case; a PyTuple supports both)
             return PyTuple([self.const(e.value) for e in lit.elts])
+        if isinstance(v, (ast.Tuple, ast.List)) and v.elts and all(isinstance(e, ast.Name) for e in v.elts):
+            # a module-level tuple of classes, e.g. for isinstance(x, _KINDS)
+            refs = []
+            for e in v.elts:
+                ci_ = self.w.repo.find_class(e.id, m.name)
+                if ci_ is None:
+                    refs = None
+                    break
+                refs.append(ClassRef(ci_.name, ci_.module))
+            if refs:
+                return PyTuple(refs)
+        og = getattr(self.specs, "opaque_globals", {})
+        if name in og:
+            # a module-level object of a library type, declared by a spec: one fixed opaque value
+            t_ = T.Opaque(og[name].split(":")[-1])
+            return SV(z3.Const(f"global:{name}", self.w.sort(t_)), t_)
         raise Unsupported(f"module-level name '{name}' is not a constant")
 
     def const(self, v):
